@@ -852,3 +852,23 @@ def fam_tls_core(tier="quick"):
     # not joined: the child may still run while main finishes (lazy statics are dropped by main)
     L += exhaustive("tlE", ["A0"], [["lz 0", "tw 0"], ["st 0 1 sc ; tw 0", "st 0 1 sc ; st 0 2 sc ; tw 1"]], 1, join=False)
     return L
+
+
+def fam_fut_core(tier="quick"):
+    """F-fut (C20): one blocked future and 1-2 waking threads; wake before / after / during
+    the poll and the registration; missing wakes."""
+    L = []
+    w1 = ["st 0 1 rel ; wk 1", "wk 1 ; st 0 1 rel", "st 0 1 rel", "wk 1", "st 0 1 rlx ; wk 1", "st 0 2 rel ; wk 1 ; st 0 1 rel ; wk 1"]
+    w2 = ["wk 1", "st 0 1 rel ; wk 1", "ld 0 acq"]
+    # the future is driven by main
+    L += exhaustive("fuA", ["A0", "W"], [["bo 0 1 1"], w1], 1, main_post=["tkw 1"])
+    L += exhaustive("fuB", ["A0", "W"], [["bo 0 1 1"], w1[:3], w2], 1, main_post=["tkw 1"])
+    # the future is driven by a child, main wakes
+    L += exhaustive("fuC", ["A0", "W"], [w1[:4], ["bo 0 1 1"]], 1, main_post=["tkw 1"])
+    # two futures in sequence on the same AtomicWaker
+    L += exhaustive("fuD", ["A0", "W"], [["bo 0 1 1 ; bo 0 2 1"], ["st 0 1 rel ; wk 1 ; st 0 2 rel ; wk 1"]], 1, main_post=["tkw 1"])
+    # nobody ever wakes / nobody ever stores
+    L.append(prog_line("fuN0", ["A0", "W"], [["bo 0 1 1"]]))
+    L.append(prog_line("fuN1", ["A0", "W"], [["sp 1", "bo 0 1 1", "jn 1"], ["wk 1"]]))
+    L.append(prog_line("fuN2", ["A1", "W"], [["bo 0 1 1", "tkw 1"]]))
+    return L
